@@ -1,21 +1,176 @@
 (* Executable entry points of the C09 model and specification oracles. *)
-From Verif Require Import Lib.Bytes Json.Ast Json.Parse.
+From Verif Require Import Lib.Bytes Json.Ast Json.Parse Auth.StateNeeded.
 Open Scope N_scope.
+
+Definition nl : bytes := [10].
+Definition comma : bytes := [44].
+
+Definition print_tuples (ts : list (bytes * bytes)) : bytes :=
+  join_bytes nl (map (fun t => fst t ++ [32] ++ hex_of_bytes (snd t)) ts).
+
+Fixpoint parse_all (l : list bytes) : option (list json) :=
+  match l with
+  | [] => Some []
+  | t :: l' => match parse_json t, parse_all l' with
+               | Some j, Some js => Some (j :: js)
+               | _, _ => None
+               end
+  end.
+
+(* [ver; event...] -> StateNeededForAuth(events).Tuples() *)
+Definition run_state_needed (args : list bytes) : bytes :=
+  match args with
+  | _ver :: evs =>
+      match parse_all evs with
+      | Some es => print_tuples (tuples (state_needed_list es))
+      | None => bs "badargs"
+      end
+  | _ => bs "badargs"
+  end.
+
+Definition sk_of (flag sk : bytes) : option bytes :=
+  if bytes_eqb flag (bs "1") then Some sk else None.
+
+(* [type; sender; has state key 0/1; state key; content text] *)
+Definition run_needed_proto (args : list bytes) : bytes :=
+  match args with
+  | [typ; sender; flag; sk; content] =>
+      match state_needed_proto typ sender (sk_of flag sk) (parse_json content) with
+      | Some n => print_tuples (tuples n)
+      | None => bs "err"
+      end
+  | _ => bs "badargs"
+  end.
+
+(* [ver; room id; type; sender; has state key; state key; content text; provider event ...] *)
+Definition run_add_auth_events (args : list bytes) : bytes :=
+  match args with
+  | ver :: room :: typ :: sender :: flag :: sk :: content :: evs =>
+      match parse_all evs with
+      | Some st =>
+          match add_auth_events ver room typ sender (sk_of flag sk) (parse_json content) st with
+          | Some ids => join_bytes comma ids
+          | None => bs "err"
+          end
+      | None => bs "badargs"
+      end
+  | _ => bs "badargs"
+  end.
+
+(* ---- specification oracles ---- *)
+
+Fixpoint split_on (c : N) (fuel : nat) (s : bytes) : list bytes :=
+  match fuel with
+  | O => [s]
+  | S f => match split_at c s with
+           | Some (a, b) => a :: split_on c f b
+           | None => [s]
+           end
+  end.
+Definition split_commas (s : bytes) : list bytes :=
+  match s with [] => [] | _ => split_on 44 (length s) s end.
+
+Definition last_arg (args : list bytes) : option (list bytes * bytes) :=
+  match rev args with
+  | obs :: r => Some (rev r, obs)
+  | [] => None
+  end.
+
+(* add_auth_events_covers_needed, decided on the implementation's own output:
+   every needed tuple the provider has an event for is referenced (the create event of a
+   domainless room excepted: its ID is the room ID), and nothing else is referenced. *)
+Definition prop_add_auth_events_covers (args : list bytes) : bytes :=
+  match last_arg args with
+  | Some (ver :: room :: typ :: sender :: flag :: sk :: content :: evs, obs) =>
+      match parse_all evs with
+      | Some st =>
+          match state_needed_proto typ sender (sk_of flag sk) (parse_json content) with
+          | None => if bytes_eqb obs (bs "err") then bs "ok" else bs "FAIL error expected"
+          | Some n =>
+              let ids := split_commas obs in
+              let implied := if domainless_room_ids ver then [36 :: tl room] else [] in
+              let covered :=
+                forallb (fun k => match lookup st k with
+                                  | Some e => mem_bytes (ev_id e) ids || mem_bytes (ev_id e) implied
+                                  | None => true
+                                  end) (tuples n) in
+              let only_needed :=
+                forallb (fun id => existsb (fun k => match lookup st k with
+                                                     | Some e => bytes_eqb (ev_id e) id
+                                                     | None => false
+                                                     end) (tuples n)) ids in
+              if bytes_eqb obs (bs "err") then bs "FAIL unexpected error"
+              else if covered && only_needed then bs "ok"
+              else if covered then bs "FAIL references an event that is not needed"
+              else bs "FAIL a needed event is not referenced"
+          end
+      | None => bs "badargs"
+      end
+  | _ => bs "badargs"
+  end.
 
 (* [ver; steps; pool...; observable] where observable = reused verdicts | one-shot verdicts.
    Specification side of checker reuse: the verdict list obtained through one reused checker
    must be the verdict list of the one-shot evaluations. *)
 Definition prop_reuse_transparent (args : list bytes) : bytes :=
-  match rev args with
-  | obs :: _ =>
+  match last_arg args with
+  | Some (_, obs) =>
       match split_at 124 obs with
       | Some (reused, oneshot) =>
           if bytes_eqb reused oneshot then bs "ok"
           else bs "FAIL reused=" ++ reused ++ bs " oneshot=" ++ oneshot
       | None => bs "badargs"
       end
-  | [] => bs "badargs"
+  | None => bs "badargs"
+  end.
+
+(* [.. ; observable] where observable = v0,v1,...: all evaluations must agree with the first *)
+Definition prop_all_equal (args : list bytes) : bytes :=
+  match last_arg args with
+  | Some (_, obs) =>
+      match split_commas obs with
+      | v :: vs => if forallb (bytes_eqb v) vs then bs "ok" else bs "FAIL verdicts differ: " ++ obs
+      | [] => bs "badargs"
+      end
+  | None => bs "badargs"
+  end.
+
+Fixpoint firstn_skipn {A} (n : nat) (l : list A) : list A * list A :=
+  match n, l with
+  | O, _ => ([], l)
+  | S n', x :: l' => let (a, b) := firstn_skipn n' l' in (x :: a, b)
+  | S _, [] => ([], [])
+  end.
+
+Fixpoint keys_distinct (ks : list (bytes * bytes)) : bool :=
+  match ks with
+  | [] => true
+  | k :: ks' => negb (existsb (tuple_eqb k) ks') && keys_distinct ks'
+  end.
+
+(* [ver; event; perms; nBase; base...; extra...; observable]:
+   the hypotheses of the claim are checked on the inputs (the base state has one event per key,
+   every extra event is state the event does not need), then all evaluations must agree *)
+Definition prop_invariance (args : list bytes) : bytes :=
+  match last_arg args with
+  | Some (_ver :: ev :: _perms :: nbase :: rest, obs) =>
+      match parse_json ev, parse_dec nbase, parse_all rest with
+      | Some e, Some nb, Some sts =>
+          let (base, extra) := firstn_skipn (N.to_nat nb) sts in
+          let needed := tuples (state_needed e) in
+          if negb (keys_distinct (map ev_key base)) then bs "badargs"
+          else if existsb (fun x => existsb (tuple_eqb (ev_key x)) needed) extra then bs "badargs"
+          else prop_all_equal [obs]
+      | _, _, _ => bs "badargs"
+      end
+  | _ => bs "badargs"
   end.
 
 Definition ops_C09 : list (bytes * (list bytes -> bytes)) :=
-  [ (bs "C09.prop.reuse_transparent", prop_reuse_transparent) ].
+  [ (bs "C09.state_needed", run_state_needed);
+    (bs "C09.needed_proto", run_needed_proto);
+    (bs "C09.add_auth_events", run_add_auth_events);
+    (bs "C09.prop.add_auth_events_covers", prop_add_auth_events_covers);
+    (bs "C09.prop.reuse_transparent", prop_reuse_transparent);
+    (bs "C09.prop.invariance", prop_invariance);
+    (bs "C09.prop.all_equal", prop_all_equal) ].
